@@ -87,8 +87,8 @@ EXPORT errno_t _wmemcmp_s_chk(const wchar_t *dest, rsize_t dlen,
                               const size_t destbos, const size_t srcbos)
 #endif
 {
-    const rsize_t dmax = dlen * SIZEOF_WCHAR_T;
-    const rsize_t smax = slen * SIZEOF_WCHAR_T;
+    const rsize_t dmax = SAFEC_MUL_SAT(dlen, SIZEOF_WCHAR_T);
+    const rsize_t smax = SAFEC_MUL_SAT(slen, SIZEOF_WCHAR_T);
     const wchar_t *dp;
     const wchar_t *sp;
 
